@@ -82,6 +82,20 @@ def write_evidence(prop, tier, seed, level, results, wall, extra, nviol):
             if k.startswith("cell"):
                 del cov["workload_stats"][k]
     cov.update(extra)
+    # sensitivity as last recorded by ./check --mutants and by the independently
+    # seeded changes (not measured by this run; see mutants/RESULTS.json, seeded/)
+    try:
+        with open(os.path.join(VERIF, "mutants", "RESULTS.json")) as f:
+            mres = json.load(f)
+        mine = {k.split("/", 1)[1]: v["status"] for k, v in mres.items() if k.startswith(prop + "/")}
+        if mine:
+            cov["sensitivity_last_recorded"] = {
+                "source": "./check --mutants (quick budget, scratch copies of /repo/xyzpy)",
+                "detected": sorted(k for k, v in mine.items() if v == "detected"),
+                "not_detected": sorted(k for k, v in mine.items() if v != "detected"),
+            }
+    except (OSError, ValueError):
+        pass
     ev = {
         "property_id": prop, "tier": tier, "seed": int(seed), "level": level,
         "coverage": cov,
